@@ -387,10 +387,19 @@ func (vs *vkServer) stopKeep() (disk *filtering.Config, dir string) {
 // vkExchange sends one query from source address src (a loopback alias) over
 // UDP or TCP.
 func vkExchange(vs *vkServer, src string, tcp bool, name string, qtype uint16) (resp *dns.Msg, err error) {
+	return vkExchangeDO(vs, src, tcp, name, qtype, false)
+}
+
+// vkExchangeDO is vkExchange with the DNSSEC-OK bit set or not (without it the
+// proxy removes DNSSEC records from answers).
+func vkExchangeDO(vs *vkServer, src string, tcp bool, name string, qtype uint16, do bool) (resp *dns.Msg, err error) {
 	m := &dns.Msg{}
 	m.Id = dns.Id()
 	m.RecursionDesired = true
 	m.Question = []dns.Question{{Name: name, Qtype: qtype, Qclass: dns.ClassINET}}
+	if do {
+		m.SetEdns0(4096, true)
+	}
 
 	c := &dns.Client{Timeout: 5 * time.Second}
 	addr := vs.UDP
